@@ -143,6 +143,10 @@ def run(ctx: Ctx) -> None:
                     if r.returncode != 0:
                         ctx.finding(("plugin-failed", plugin, "committed-model"), (r.stderr or r.stdout)[-400:], {"plugin": plugin, "hashseed": hs})
                 files = [("py", os.path.join(d, "python", "lsprotocol", "types.py")), ("rs", os.path.join(d, "rust", "lsprotocol", "src", "lib.rs"))]
+                for kind_, path_ in files:
+                    if not os.path.exists(path_):   # a run that "succeeds" without writing its file reproduces nothing
+                        ctx.finding(("output-missing", os.path.basename(path_), "separate-run"), f"the plugin run ended without writing {os.path.relpath(path_, d)}",
+                                    {"file": os.path.basename(path_), "hashseed": hs})
             else:
                 # every way the command line offers to run the two plugins in ONE invocation (several --plugin options, none
                 # at all): whatever types.py / lib.rs such a run writes is held to the same comparison
@@ -161,6 +165,10 @@ def run(ctx: Ctx) -> None:
                             files.append(("rs", os.path.join(root_, nm)))
                 if r.returncode != 0 and not files:
                     combined_stats["rejected_by_the_cli"] += 1   # this form is not offered by the tree: nothing to compare
+                elif r.returncode == 0 and not files and plugin_args:
+                    # (a repeated option means "the last one" to the command line: one file is all such a run owes - but one it owes)
+                    ctx.finding(("output-missing", "types.py+lib.rs", "combined-run"),
+                                f"`{' '.join(plugin_args)}` exits 0 without writing either file", {"args": plugin_args, "hashseed": hs})
                 combined_stats["files_compared"] += len(files)
             fpy = next((p_ for k_, p_ in files if k_ == "py"), os.path.join(d, "<none>"))
             frs = next((p_ for k_, p_ in files if k_ == "rs"), os.path.join(d, "<none>"))
